@@ -551,6 +551,14 @@ func runStress(run *ev.Run, sc stressCase, filter string) {
 			}
 			return
 		}
+		if polls%25000 == 24999 { // every ~5 s: are the workers that are left spinning?
+			callsBefore, entriesBefore := tg.calls.Load(), rt.entries.Load()
+			if frames, spin := vegetaSpinning(3 * time.Second); spin && callsBefore == tg.calls.Load() && entriesBefore == rt.entries.Load() {
+				viol("C02", "not-closed-after-end", "stress-workers-spinning", "the attack does not end: over 3 s no hit was started and no request reached the transport, yet the same workers keep running inside vegeta; none of them parks or finishes", map[string]any{"goroutines": tail(frames, 3000)})
+				atk.Stop()
+				return
+			}
+		}
 		if sc.PacerStop > 0 && pacer.calls.Load() > int64(sc.PacerStop)+1000 {
 			// the pacer has said stop (and keeps saying it): it is not to be asked again, let alone a thousand times
 			viol("C02", "not-ended-after-pacer-stop", "stress", fmt.Sprintf("the pacer says stop from call %d on, yet it has been consulted %d times and the attack goes on", sc.PacerStop, pacer.calls.Load()), nil)
